@@ -24,10 +24,10 @@ type Route struct {
 	// a service whose content changes between two requests of one run.
 	FromNth  int               `json:"from_nth,omitempty"`
 	UntilNth int               `json:"until_nth,omitempty"`
-	URL     string            `json:"url"`
-	Status  int               `json:"status"`
-	Header  map[string]string `json:"header,omitempty"`
-	BodyB64 string            `json:"body_b64,omitempty"`
+	URL      string            `json:"url"`
+	Status   int               `json:"status"`
+	Header   map[string]string `json:"header,omitempty"`
+	BodyB64  string            `json:"body_b64,omitempty"`
 }
 
 // NetFault hits the Nth request overall (1-based) when Nth > 0, otherwise the
